@@ -10,7 +10,7 @@ from ..ref import ws as refws
 LEVEL = 'exploration'
 TECHNIQUE = 'online trace monitor (event-grammar automaton + bounded-termination rule) over bounded-exhaustive histories on a virtual clock'
 BUDGET_S = {'quick': 35, 'thorough': 280}
-REQUIRED = {'all': ['oracle.grammar_checked', 'oracle.terminated_runs', 'oracle.connect_phase_runs']}
+REQUIRED = {'all': ['oracle.grammar_checked', 'oracle.terminated_runs', 'oracle.connect_phase_runs', 'oracle.reconnect_runs']}
 RULE = ('bounded-exhaustive histories: handshake variant x every sequence of <= D server steps from a 17-step '
         'alphabet (data/control/invalid frames, close variants, half frame, silence, EOF, ECONNRESET) x 16 '
         'application policies (send/close at each event kind, at every event, send-then-close) x 3 timer '
@@ -151,6 +151,13 @@ def one(case, pn, tn, acc):
     w = H.World(H.hs_server(steps, spec), cuts=cuts, horizon=horizon, budget=20000)
     run = H.drive(w, connect_kwargs=ckw, policy=H.TablePolicy(POLICIES[pn]))
     judge(run, w, acc, dict(case, policy=pn, timer=tn))
+    if run.end == 'stop' and (len(case['seq']) + len(pn) + len(tn)) % 3 == 0:
+        # the same history once more on the SAME WebSocket object (reconnect): same grammar
+        w2 = H.World(H.hs_server(steps, spec), cuts=cuts, horizon=horizon, budget=20000)
+        w2.now = 7.25      # a later instant on the clock
+        run2 = H.drive(w2, ws=run.ws, connect_kwargs=ckw, policy=H.TablePolicy(POLICIES[pn]))
+        acc.count2('oracle', 'reconnect_runs')
+        judge(run2, w2, acc, dict(case, policy=pn, timer=tn, reconnect=True))
 
 
 def judge(run, w, acc, case):
